@@ -220,7 +220,7 @@ class Built:
             self.nodes[r] <<= snd
         if via == "ctor":
             self.model = Model(nodes=self.nodes, edges=[(self.nodes[a], self.nodes[b]) for a, b in edges])
-        else:
+        elif via == "ops":
             m = None
             linked = set()
             for a, b in edges:
@@ -230,6 +230,25 @@ class Built:
             for i, nd in enumerate(self.nodes):
                 if i not in linked:
                     m = nd if m is None else (m & nd)
+            self.model = m
+        else:   # "iand"
+            # the model grows in place, edge by edge: m &= (a >> b) - exits that become inner nodes must stop being outputs
+            from reservoirpy.model import Model
+            m = None
+            linked = set()
+            for a, b in edges:
+                piece = self.nodes[a] >> self.nodes[b]
+                linked |= {a, b}
+                if m is None:
+                    m = piece
+                else:
+                    m &= piece
+            for i, nd in enumerate(self.nodes):
+                if i not in linked:
+                    if m is None:
+                        m = Model(nodes=[nd])
+                    else:
+                        m &= nd
             self.model = m
         self._index()
 
